@@ -88,7 +88,16 @@ fn gen_code(rng: &mut Rng, rom: bool, n: usize) -> Vec<u8> {
     let mut code = Vec::new();
     for _ in 0..n {
         store_piece(rng, rom, &mut code);
-        match rng.below(6) {
+        match rng.below(8) {
+            6 => code.extend([0x3e, rng.pick(&[0xc1u8, 0x00, 0x80, 0xd0]), 0xe0, 0x46]), // start an OAM DMA: the next stores happen while it runs
+            7 => {
+                // cartridge-register write (bank select, RAM enable, MBC3 clock-register select / latch)
+                let reg = rng.pick(&[0x0000u16, 0x2000, 0x4000, 0x6000]);
+                let val = rng.pick(&[0x00u8, 0x01, 0x0a, 0x08, 0x09, 0x0c, 0x03]);
+                if rom || reg != 0x2000 {
+                    code.extend([0x3e, val, 0xea, reg as u8, (reg >> 8) as u8]);
+                }
+            }
             0 => code.extend([0x18, 0x00]), // block boundary
             1 => code.extend(crate::sm83::safe_instruction(rng)),
             2 => code.extend([0x21, 0x00, 0xc1]),
